@@ -13,6 +13,14 @@ DEV_NOTE = ("Trusted: TLC, the transcription of the device rules into Devices.tl
             "built per behaviour and every terminal is read after every action); timestamps are ranks mapped monotonically to i64; "
             "numeric agreement within 2^-16 of the largest magnitude in the behaviour.")
 CLAIMS = {
+ "C17": dict(design_ref="DESIGN.md section 4, C17",
+    text="Reference.tla models handles (clone, to_dyn, write, read, drop) onto one object for the six variants with the invariants 'every handle "
+         "reads the last write' and 'dropped iff reference counted and no handle left'; RefThreads.tla explores every interleaving of N threads x "
+         "K lock/read/write/unlock rounds (mutual exclusion, no lost update, termination; the lock-free variant must fail). Bound to the code by "
+         "replaying every handle behaviour on real References in a caller crate built without and with features named alloc / std, and by "
+         "validating traces of real threads (2..8 threads, 1e3..2e4 increments, four lock variants) against RefThreadsTrace.tla.",
+    note="Trusted: TLC, the three specifications, the harness; real schedules are sampled by the OS scheduler.",
+    technique="TLA+ spec model-checked with TLC; spec behaviours replayed into the implementation and implementation traces validated by TLC"),
  "C15": dict(design_ref="DESIGN.md section 4, C15",
     text="Settable.tla models set / last request / follow / stop_following / update_following_data with a failing-or-succeeding impl_set, the "
          "GetterFromHistory constructors with set_delta / set_time over a history that returns the time it was asked for, ConstantGetter and "
